@@ -34,6 +34,7 @@ ASSUMPTIONS = ['tampering a legacy input amount is not required to be detected (
 K_FOREIGN_KEY = 'C02/verify/declared-hash-not-compared-with-signing-key'
 K_HASHTYPE_IGNORED = 'C02/verify/signature-hashtype-byte-ignored'
 K_RESIGN_DUP = 'C02/sign/resign-duplicates-signature'
+K_P2PK_RESIGN = 'C02/resign/p2pk-scriptsig-not-refreshed'
 
 
 def registry(spec):
@@ -191,6 +192,69 @@ def phase_object_tamper(col, case, spec, pos, rnd, t_signed):
             continue
         kind = spec['ins'][int(label.split(':')[1])]['kind'] if ':' in label and label.startswith('in-') else 'tx'
         judge(col, case, 'obj-' + label.split(':')[0] + ':' + label, tt, pos, (kind, 'obj'), demand_false=demand)
+
+
+def phase_object_signature_tamper(col, case, spec, pos, rnd, t_signed):
+    """replace / corrupt a signature *in the object* (inp.signatures) after a successful verify(), let the input rebuild its
+    scripts, and verify again: state remembered from the first verification must not decide"""
+    from bitcoinlib.keys import Signature
+    for k, inp in enumerate(spec['ins']):
+        tt = copy.deepcopy(t_signed)
+        li = tt.inputs[k]
+        if not li.signatures:
+            continue
+        j = rnd.randrange(len(li.signatures))
+        old = li.signatures[j]
+        variant = rnd.choice(['foreign', 's+1'])
+        try:
+            if variant == 'foreign':
+                fr, fs = ec.ecdsa_sign_with_k(rnd.getrandbits(256), txgen.rand_secret(rnd), txgen.rand_secret(rnd))
+                if fs > ec.N // 2:
+                    fs = ec.N - fs
+                new = Signature(fr, fs, hash_type=old.hash_type)
+            else:
+                new = Signature(old.r, (old.s % (ec.N // 2 - 1)) + 1, hash_type=old.hash_type)
+            li.signatures[j] = new
+            li.update_scripts(hash_type=li.hash_type)
+        except Exception as e:
+            col.probe('object_sig_tamper_not_applicable')
+            continue
+        judge(col, case, 'obj-signature-%s:%d' % (variant, k), tt, pos, (inp['kind'], 'obj-sig', variant), demand_false=True)
+
+
+def phase_modify_and_resign(col, case, spec, pos, rnd, t_signed):
+    """change a committed field on the same object, sign again with the right keys: the result must verify and be valid"""
+    network = spec['network']
+    tt = copy.deepcopy(t_signed)
+    mod = rnd.choice(['out_value', 'locktime', 'sequence'])
+    try:
+        if mod == 'out_value':
+            tt.outputs[0].value = tt.outputs[0].value - 1 if tt.outputs[0].value > 0 else tt.outputs[0].value + 1
+        elif mod == 'locktime':
+            tt.locktime = (tt.locktime + 1) & 0xffffffff
+        else:
+            tt.inputs[0].sequence = (tt.inputs[0].sequence ^ 2) & 0xffffffff
+        # stale signatures must not verify ...
+        judge(col, case, 'modified-before-resign:%s' % mod, tt, pos, ('tx', 'modify', mod), demand_false=True)
+        for idx, inp in enumerate(spec['ins']):
+            tt.sign(txgen.lib_keys(inp, network), index_n=idx, replace_signatures=True)
+    except Exception as e:
+        col.violation(None, 're-signing after changing %s raised %r' % (mod, e), dict(case, label='resign:' + mod), repr(e), None)
+        return
+    # ... and after signing again with the right keys everything must be valid again
+    col.probe('resign_verdicts')
+    raw = tt.raw()
+    rv, res = ref_valid(raw, pos, [int(i.value or 0) for i in tt.inputs])
+    lv, exc = lib_verify(tt)
+    kinds = [i['kind'] for i in spec['ins']]
+    bad = [k for k, r in enumerate(res) if hasattr(r, 'ok') and not r.ok]
+    col.case('verdict/resign/%s' % ('valid' if rv else 'invalid'), nontrivial=(tuple(sorted(kinds)), 'resign', mod))
+    if not rv or not lv:
+        key = None
+        if lv and bad and all(kinds[k] == 'p2pk' for k in bad):
+            key = K_P2PK_RESIGN   # narrow: only P2PK inputs keep the scriptSig of the first signing pass
+        col.violation(key, '[resign:%s] after changing a field and signing again with the right keys: reference valid=%s, library verify()=%s (bad inputs %s)'
+                      % (mod, rv, lv, [(k, kinds[k]) for k in bad]), dict(case, label='resign:' + mod), {'lib': lv, 'raw': raw.hex()[:1500]}, {'ref': True, 'lib': True})
 
 
 def phase_foreign(col, case, spec, pos, rnd):
@@ -400,6 +464,8 @@ def run_case(case, col):
         return
     phase_signers(col, case, spec, pos, rnd)
     phase_object_tamper(col, case, spec, pos, rnd, t)
+    phase_object_signature_tamper(col, case, spec, pos, rnd, t)
+    phase_modify_and_resign(col, case, spec, pos, rnd, t)
     phase_raw_tamper(col, case, spec, pos, rnd, raw)
     if case.get('foreign', True):
         phase_foreign(col, case, spec, pos, rnd)
@@ -433,6 +499,7 @@ def run_shard(spec, col):
         return
     col.require('verdicts', 20)
     col.require('parse_mode_verdicts', 20)
+    col.require('resign_verdicts', 5)
     rnd = random.Random('%s-%d-%d' % (ID, spec['seed'], spec['shard']))
     for k in range(spec['n_tx']):
         s = txgen.gen_spec(rnd, n_in=rnd.choice([1, 1, 2, 3]), n_out=rnd.choice([1, 2, 3]), max_n=spec['max_n'])
